@@ -91,6 +91,25 @@ Definition hash_reconcile (current_version h : string) (pool_ann : option string
                    else mkAnn (if a_drifted c then a_hash c else Some h) (Some current_version) (a_drifted c)) claims
    else claims).
 
+(* the controller around it: unmanaged pools are left alone; API faults. updateNodeClaimHash runs first and only when
+   the pool's version is not current; an error there (List fails, or a NodeClaim Patch fails) returns before the pool
+   is stamped; a failing NodePool Patch leaves the claims migrated and the pool as it was. *)
+Inductive hfault := HNoFault | HListFails | HClaimPatchFails | HPoolPatchFails.
+
+Definition hash_controller (managed : bool) (f : hfault) (current_version h : string)
+    (pool_ann : option string * option string) (claims : list cl_ann) : (option string * option string) * list cl_ann :=
+  if negb managed then (pool_ann, claims)
+  else
+    let migrate := negb (opt_str_eqb (snd pool_ann) (Some current_version)) in
+    let '(pa', cs') := hash_reconcile current_version h pool_ann claims in
+    let claim_patched := existsb (fun c => negb (opt_str_eqb (a_ver c) (Some current_version))) claims in
+    match f with
+    | HNoFault => (pa', cs')
+    | HListFails => if migrate then (pool_ann, claims) else (pa', cs')
+    | HClaimPatchFails => if migrate && claim_patched then (pool_ann, claims) else (pa', cs')
+    | HPoolPatchFails => (pool_ann, cs')
+    end.
+
 (* the order of operations on one pool before a claim is built: template edits (the hash of the edited template is
    [h]) and hash-controller reconciles, in any interleaving. NewNodeClaimTemplate reads the pool OBJECT: the claim is
    stamped with Hash() of the template it is built from and the current version, never with the controller's stamp. *)
@@ -194,6 +213,12 @@ Definition drift_reconcile (d : dinput) (prev : option string) : option string :
        | DNone => None
        | DReason r => Some r
        end.
+
+(* disruption.Controller.Reconcile around it: nothing happens for a claim that is unmanaged, being deleted, without
+   nodepool label, or whose pool is gone ([active] = none of these); a failed status patch leaves the stored
+   condition as it was *)
+Definition controller_reconcile (active patch_ok : bool) (d : dinput) (prev : option string) : option string :=
+  if active && patch_ok then drift_reconcile d prev else prev.
 
 (* instanceTypeNotFoundCheckCache.SetDefault is reached iff the check ran and found the type and an offering *)
 Definition cache_after (d : dinput) : bool :=
